@@ -19,7 +19,7 @@ Proof. intros H. unfold size, map_size. apply submseteq_length, map_to_list_subm
 
 (* ------------------------------------------------------------------------------------------- *)
 (* the loops of push / pop *)
-Lemma collect_fold_lookup (vs acc : vmap) copy k :
+Lemma collect_fold_lookup (vs acc : vmap) (copy : list name) (k : name) :
   foldl (fun nv key => match vs !! key with Some v => <[key := v]> nv | None => nv end) acc copy !! k
   = if decide (k ∈ copy) then (match vs !! k with Some v => Some v | None => acc !! k end) else acc !! k.
 Proof.
@@ -37,13 +37,13 @@ Proof.
         destruct (vs !! c) eqn:Hc; [|done]. by rewrite lookup_insert_ne.
 Qed.
 
-Lemma collect_lookup vs copy k : collect vs copy !! k = if decide (k ∈ copy) then vs !! k else None.
+Lemma collect_lookup (vs : vmap) (copy : list name) (k : name) : collect vs copy !! k = if decide (k ∈ copy) then vs !! k else None.
 Proof.
   unfold collect. rewrite collect_fold_lookup. rewrite lookup_empty.
   destruct (decide (k ∈ copy)); [|done]. by destruct (vs !! k).
 Qed.
 
-Lemma collect_filter vs copy : collect vs copy = filter (fun kv : name * value => kv.1 ∈ copy) vs.
+Lemma collect_filter (vs : vmap) (copy : list name) : collect vs copy = filter (fun kv : name * value => kv.1 ∈ copy) vs.
 Proof.
   apply map_eq. intros k. rewrite collect_lookup.
   destruct (decide (k ∈ copy)) as [Hin|Hin].
@@ -92,7 +92,7 @@ Definition safe_map (m : vmap) : Prop := forall k, is_Some (m !! k) -> safe_name
 
 Lemma put_args_lookup ns : forall i (m : vmap) k, safe_name k -> put_args i ns m !! k = m !! k.
 Proof.
-  induction ns as [|a ns IH]; intros i m k Hk; cbn; [done|].
+  induction ns as [|a ns IH]; intros i m k Hk; cbn [put_args]; [done|].
   rewrite IH by done. apply lookup_insert_ne. intros E. rewrite <- E in Hk.
   unfold safe_name in Hk. by rewrite arg_key_unsafe in Hk.
 Qed.
@@ -111,7 +111,7 @@ Proof.
         rewrite lookup_delete_ne by congruence. by rewrite lookup_insert_ne by congruence.
 Qed.
 
-Lemma s_unset_lookup ns (vs : vmap) k :
+Lemma s_unset_lookup (ns : list name) (vs : vmap) (k : name) :
   s_unset vs ns !! k = if decide (k ∈ ns) then None else vs !! k.
 Proof.
   unfold s_unset. induction ns as [|a ns IH]; cbn [foldr].
@@ -130,7 +130,7 @@ Definition unset_v3 (vs : vmap) (ns : list name) (h : value) : vmap :=
   let v2 := foldl (fun m a => delete a (<[loop_key := a]> m)) v1 ns in
   filter (fun kv => starts_with unset_prefix kv.1 = false) v2.
 
-Lemma unset_v3_lookup vs ns h k :
+Lemma unset_v3_lookup (vs : vmap) (ns : list name) (h : value) (k : name) :
   unset_v3 vs ns h !! k =
   if decide (safe_name k) then (if decide (k ∈ ns) then None else vs !! k) else None.
 Proof.
@@ -196,7 +196,7 @@ Lemma m_step_spec s o : safe_map (vars s) -> m_step s o = s_step true s o.
 Proof. intros Hs. destruct o as [out c|]; cbn; [|done]. by rewrite m_cmd_spec. Qed.
 
 (* preservation of the domain invariant *)
-Lemma safe_map_insert m k v : safe_map m -> safe_name k -> safe_map (<[k := v]> m).
+Lemma safe_map_insert (m : vmap) (k : name) (v : value) : safe_map m -> safe_name k -> safe_map (<[k := v]> m).
 Proof.
   intros Hm Hk j [x Hj]. destruct (decide (j = k)) as [->|]; [done|].
   rewrite lookup_insert_ne in Hj by congruence. apply Hm. by eexists.
@@ -209,13 +209,13 @@ Proof.
 Qed.
 Lemma safe_map_empty : safe_map ∅.
 Proof. intros j [x Hj]. by rewrite lookup_empty in Hj. Qed.
-Lemma s_unset_subseteq (vs : vmap) ns : s_unset vs ns ⊆ vs.
+Lemma s_unset_subseteq (vs : vmap) (ns : list name) : s_unset vs ns ⊆ vs.
 Proof.
   unfold s_unset. induction ns as [|a ns IH]; cbn; [done|].
   etrans; [apply delete_subseteq|done].
 Qed.
 
-Lemma update_output_safe out r m :
+Lemma update_output_safe (out : option name) (r : outcome) (m : vmap) :
   safe_map m -> match out with Some x => safe_name x | None => True end -> safe_map (update_output out r m).
 Proof.
   intros Hm Ho. destruct out as [x|]; cbn; [|done].
@@ -233,11 +233,11 @@ Proof.
   - split; [|done]. apply safe_map_empty.
   - split; [|done]. eapply safe_map_sub; [done|apply map_filter_subseteq].
   - split; [|by constructor]. eapply safe_map_sub; [done|apply map_filter_subseteq].
-  - unfold s_pop. destruct (stack s) as [|old rest] eqn:E; cbn; [by rewrite E|].
-    apply Forall_cons in Hst as [Hold Hrest]. split; [|done].
+  - unfold s_pop. destruct s as [vs st]; cbn in *. destruct st as [|old rest]; cbn; [by split|].
+    apply Forall_cons in Hst as [Hold Hrest]. split; [|done]. cbn.
     apply safe_map_union.
-    + eapply safe_map_sub; [done|apply map_filter_subseteq].
-    + destruct pol; [done|]. eapply safe_map_sub; [done|apply map_filter_subseteq].
+    + apply (safe_map_sub vs); [done|apply map_filter_subseteq].
+    + destruct pol; [done|]. apply (safe_map_sub old); [done|apply map_filter_subseteq].
 Qed.
 
 Lemma s_step_safe pol s o : safe_state s -> op_safe o -> safe_state (s_step pol s o).2.
@@ -314,9 +314,9 @@ Lemma s_step_stack pol s o :
   | _ => stack s
   end.
 Proof.
-  destruct o as [out c|]; [|done]. cbn.
+  destruct o as [out c|]; [|done]. destruct s as [vs st]. cbn.
   destruct c as [v|ns h|n [v|]|n|n|[p|]|n|c|c]; cbn; try done.
-  unfold s_pop. by destruct (stack s).
+  unfold s_pop. cbn. by destruct st.
 Qed.
 
 Lemma s_run_stack pol ops : forall k k' s top base,
@@ -362,8 +362,11 @@ Proof.
   destruct (s_run pol s1 mid) as [o1 s2]. cbn in *.
   unfold s_pop. rewrite H1. cbn.
   destruct s as [vs st]. cbn. f_equal.
-  rewrite map_filter_empty_iff_2; [apply (left_id_L ∅ (∪))|].
-  intros k v _ Hin. cbn in Hin. by apply elem_of_nil in Hin.
+  match goal with |- ?f ∪ _ = _ => assert (Hf : f = ∅) end.
+  { apply map_eq. intros k. rewrite lookup_empty. apply map_filter_lookup_None. right.
+    intros v _ Hin. cbn in Hin. by apply elem_of_nil in Hin. }
+  rewrite Hf, (left_id_L ∅ (∪)). destruct pol; [done|].
+  apply map_filter_id. intros k v _. left. cbn. intros Hin. by apply elem_of_nil in Hin.
 Qed.
 
 (* names *)
@@ -392,3 +395,9 @@ Lemma f4_witness :
   (m_run ms_init f4_history).1.*1 = [OVal v_1; OVal lit_true; OVal lit_true; OErr] /\
   vars (m_run ms_init f4_history).2 = {[ nm_a := v_1 ]}.
 Proof. split; [repeat constructor|]. vm_compute. done. Qed.
+
+Lemma m_lifo s out c mid :
+  safe_state s -> Forall op_safe (Op out (CPush c) :: mid ++ [Op None (CPop None)]) ->
+  balanced 0 mid = Some 0 ->
+  (m_run s (Op out (CPush c) :: mid ++ [Op None (CPop None)])).2 = s.
+Proof. intros Hs Ho Hb. rewrite run_refines by done. by apply s_lifo. Qed.
